@@ -1,6 +1,7 @@
 (* Token tree = markdown_it.tree.SyntaxTreeNode (after _render_tokens' +1 on map). *)
 From Coq Require Import List NArith Bool.
-From MV Require Import Base.PyStr Doc.Str.
+From MV Require Import Base.PyStr.
+From MV Require Import Doc.Str.
 Import ListNotations.
 Open Scope N_scope.
 
